@@ -60,7 +60,7 @@ B2 = [b"", b"b1"]
 
 def late_reader_cfg(n_peer, n_gets, fine=(0,), reorder=0):
     """client 0 uses get_message() explicitly and may call it late, so that records pile up unclaimed"""
-    peer_msgs = [b"p%d" % i for i in range(n_peer)]
+    peer_msgs = [b"p%d" % i if i != 1 else b"" for i in range(n_peer)]      # the second one is the empty message
     return dict(
         clients=[dict(threads=[[("set_code", CODE)], [("get", "message")] * n_gets], drops=0, mode="deferred", auto_get=False),
                  dict(threads=[[("set_code", CODE)] + [("send", m) for m in peer_msgs]], drops=0, mode="deferred")],
